@@ -263,6 +263,59 @@ fn structured_pdus(rng: &mut Rng, max_len: usize, per: usize, f: &mut dyn FnMut(
     }
 }
 
+/// the values at which a 16-bit field of a PDU could be treated specially: zero, the limits of
+/// the quantities (125, 123, 121, 2000, 1968), byte borders, the sign bit and the last values
+/// before the field wraps
+const FIELD_BORDERS: &[u16] = &[
+    0, 1, 2, 7, 8, 9, 0x79, 0x7A, 0x7B, 0x7C, 0x7D, 0x7E, 0xFF, 0x100, 0x7B0, 0x7B1, 0x7CF, 0x7D0, 0x7D1, 0x7FFF, 0x8000,
+    0xFF00, 0xFFF7, 0xFFF8, 0xFFF9, 0xFFFA, 0xFFFB, 0xFFFC, 0xFFFD, 0xFFFE, 0xFFFF,
+];
+
+/// every function code that has 16-bit fields × border values in its first two fields (one of
+/// them sweeping all borders, the other a few) × what follows: nothing, further fields, a byte
+/// count that is zero / right / wrong with a payload that is missing / right / one short
+fn field_border_pdus(rng: &mut Rng, f: &mut dyn FnMut(Vec<u8>)) {
+    const FCS: &[u8] = &[0x01, 0x02, 0x03, 0x04, 0x05, 0x06, 0x0F, 0x10, 0x14, 0x15, 0x16, 0x17, 0x18, 0x2B, 0x41];
+    let few: &[u16] = &[0, 0x10, 0xFFFF];
+    for &fc in FCS {
+        let mut pairs: Vec<(u16, u16)> = vec![];
+        for &a in FIELD_BORDERS {
+            for &b in few {
+                pairs.push((a, b));
+                pairs.push((b, a));
+            }
+        }
+        for (a, b) in pairs {
+            let head = vec![fc, (a >> 8) as u8, a as u8, (b >> 8) as u8, b as u8];
+            f(head.clone());
+            // a byte count and a payload
+            let right = match fc {
+                0x0F => usize::from(b).div_ceil(8),
+                _ => usize::from(b).saturating_mul(2),
+            };
+            for bc in [0usize, 1, right.min(255), 255] {
+                for pl in [0usize, bc, bc.saturating_sub(1)] {
+                    let mut p = head.clone();
+                    p.push(bc as u8);
+                    p.extend(rng.bytes(pl.min(260)));
+                    f(p);
+                }
+            }
+            // two further fields (0x16, 0x17) and then a byte count
+            let (c, d) = (*rng.pick(FIELD_BORDERS), *rng.pick(FIELD_BORDERS));
+            let mut p = head.clone();
+            p.extend([(c >> 8) as u8, c as u8]);
+            f(p.clone());
+            p.extend([(d >> 8) as u8, d as u8]);
+            f(p.clone());
+            let bc = usize::from(d).saturating_mul(2).min(255);
+            p.push(bc as u8);
+            p.extend(rng.bytes(bc));
+            f(p);
+        }
+    }
+}
+
 fn mutate(rng: &mut Rng, mut p: Vec<u8>) -> Vec<u8> {
     match rng.below(7) {
         0 if !p.is_empty() => {
@@ -318,6 +371,7 @@ fn pdu_inputs(rng: &mut Rng, thorough: bool, light: bool, f: &mut dyn FnMut(&str
         }
     }
     structured_pdus(rng, if light { 270 } else { 300 }, if light { 1 } else { 3 }, &mut |p| f("both", p));
+    field_border_pdus(rng, &mut |p| f("both", p));
     // valid PDUs and mutations of them
     let n = if thorough { 300_000 } else if light { 8_000 } else { 30_000 };
     for _ in 0..n {
@@ -717,6 +771,18 @@ pub fn gen_c09(out: &mut Out, rng: &mut Rng, thorough: bool) {
                 continue;
             }
             let t = response(r);
+            monitor_line(out, &format!("tcprsp {} {} R={t}", hex16(rng.u16()), hex8(rng.u8())));
+            monitor_line(out, &format!("rtursp {} R={t}", hex8(rng.u8())));
+        }
+    }
+    // `Custom` under EVERY function code – the named ones included, whose other variants have a
+    // fixed size – at the sizes around the limit
+    for fc in 0..=0x7Fu8 {
+        for n in [0usize, 4, 251, 252, 253, 254, 300] {
+            let t = request(&Request::Custom(fc, Cow::Owned(rng.bytes(n))));
+            monitor_line(out, &format!("tcpreq {} {} {t}", hex16(rng.u16()), hex8(rng.u8())));
+            monitor_line(out, &format!("rtureq {} {t}", hex8(rng.u8())));
+            let t = response(&Response::Custom(fc, Bytes::from(rng.bytes(n))));
             monitor_line(out, &format!("tcprsp {} {} R={t}", hex16(rng.u16()), hex8(rng.u8())));
             monitor_line(out, &format!("rtursp {} R={t}", hex8(rng.u8())));
         }
